@@ -410,6 +410,34 @@ def fanout_join_loop(n_limit: int, s0: int, exit_: str = "END", extra_input: boo
     return {"spec": {"name": name, "nodes": nodes, "bind": {}}, "inputs": inputs, "ref": ref, "template": f"fanout_join(exit={exit_},extra={extra_input})"}
 
 
+def fanout_join_pair_loop(n_limit: int, s0: int, name: str = "fanpair"):
+    """The fan-out/join cycle over TWO loop values read by both branches in opposite parameter order:
+    left(u, v)->l_out, right(v, u)->r_out, join(l_out, r_out)->(u, v). The two readers are interchangeable entry
+    points - they need the same values, whatever the order of their parameters.
+    `while u < N: l = u + 1; r = v + 2; u, v = l + r, l + r + 1`"""
+    left = {"k": "fn", "name": "left", "params": [{"n": "u"}, {"n": "v"}], "outs": ["l_out"], "beh": ["inc", "u"]}
+    right = {"k": "fn", "name": "right", "params": [{"n": "v"}, {"n": "u"}], "outs": ["r_out"], "beh": ["addc", "v", 2]}
+    join = {"k": "fn", "name": "join", "params": [{"n": "l_out"}, {"n": "r_out"}], "outs": ["u", "v"], "beh": ["sum2", "l_out", "r_out"]}
+    gate = {"k": "route", "name": "again", "params": [{"n": "u"}], "targets": ["left", "right"], "multi": True, "cond": ["lt", "u", n_limit], "then": ["left", "right"], "else": [], "open": True}
+    inputs = {"u": s0, "v": s0 + 1}
+    trace = []
+    u, v = s0, s0 + 1
+    while True:
+        trace.append(("again", {}))
+        if not u < n_limit:
+            break
+        l, r = u + 1, v + 2
+        trace.append(("left", {"l_out": l}))
+        trace.append(("right", {"r_out": r}))
+        u, v = l + r, l + r + 1
+        trace.append(("join", {"u": u, "v": v}))
+    vals = _fold(inputs, trace)
+    vals.setdefault("u", s0)
+    vals.setdefault("v", s0 + 1)
+    ref = {"trace": None, "values": vals, "counts": _counts(trace), "singleton_steps": False, "steps": len(trace)}
+    return {"spec": {"name": name, "nodes": [left, right, join, gate], "bind": {}}, "inputs": inputs, "ref": ref, "template": "fanout_join_pair"}
+
+
 def nested_loop(n_limit: int, c0: int, body_len: int = 1, gate: str = "route", depth: int = 1):
     """T7: the counter loop wrapped as a nested graph inside a DAG: pre -> [loop] -> post."""
     inner = counter_loop(n_limit, c0 + 1, body_len, gate, name="inner")
@@ -463,6 +491,7 @@ def systematic_templates(N: int) -> list:
         fanout_join_loop(4 * N, N % 2, "empty"),
         early_read_signal_loop(N, 0, "route"),
         early_read_signal_loop(N + 1, 1, "ifelse"),
+        fanout_join_pair_loop(5 * N, N % 2),
         fanout_join_loop(4 * N, 0, "empty", True),
     ]
 
